@@ -995,6 +995,123 @@ fn search_cli(obs: &[&str]) {
     }
 }
 
+// C19 (slice): the real `varlink-certification` server ($VX_CERT_BIN, built by tools/replay.py from the tree under test), raw frames on a unix socket.
+//   a reference client walks Start, Test01..Test11, End feeding each reply into the next call (the canonical sequence) and records the parameters;
+//   then for every position E a fresh client is walked to E and sent every OTHER step with well-typed (recorded) parameters: each must be answered
+//   with ClientIdError, after which step E itself must still succeed; an unknown client id gets ClientIdError for every step.
+fn search_cert(obs: &[&str]) {
+    use std::os::unix::net::UnixStream;
+    let mut found: std::collections::HashMap<&'static str, Value> = std::collections::HashMap::new();
+    let mut explored = 0usize;
+    let bin = match std::env::var("VX_CERT_BIN") { Ok(b) if std::path::Path::new(&b).exists() => b, _ => {
+        for ob in obs { println!("{}", json!({"obligation": ob, "found": false, "explored": 0, "detail": Value::Null, "note": "VX_CERT_BIN not built"})); }
+        return;
+    } };
+    let dir = std::env::temp_dir().join(format!("vx-c19-{}", std::process::id()));
+    let _ = std::fs::create_dir_all(&dir);
+    let sock = dir.join("cert");
+    let mut child = match std::process::Command::new(&bin).arg(format!("--varlink=unix:{}", sock.display())).arg("--timeout").arg("60")
+        .stdin(std::process::Stdio::null()).stdout(std::process::Stdio::null()).stderr(std::process::Stdio::null()).spawn() { Ok(c) => c, Err(_) => return };
+    for _ in 0..200 { if sock.exists() { break; } std::thread::sleep(Duration::from_millis(20)); }
+    let names: Vec<String> = (1..=11).map(|k| format!("Test{:02}", k)).chain(std::iter::once("End".to_string())).collect();
+    // one request on a fresh connection; returns the replies read (all of them for a `more` call that is answered with continues)
+    let call = |method: &str, params: Value, more: bool| -> Vec<Value> {
+        let mut out = Vec::new();
+        let st = match UnixStream::connect(&sock) { Ok(s) => s, Err(_) => return out };
+        let _ = st.set_read_timeout(Some(Duration::from_millis(3000)));
+        let mut w = match st.try_clone() { Ok(w) => w, Err(_) => return out };
+        let mut req = json!({"method": format!("org.varlink.certification.{}", method), "parameters": params});
+        if more { req["more"] = json!(true); }
+        let oneway = method.ends_with("!oneway");
+        if oneway { req["method"] = json!(format!("org.varlink.certification.{}", method.trim_end_matches("!oneway"))); req["oneway"] = json!(true); }
+        let mut b = serde_json::to_vec(&req).unwrap(); b.push(0);
+        if w.write_all(&b).is_err() { return out; }
+        let mut r = BufReader::new(st);
+        if oneway {
+            // no reply is expected; a GetInfo on the same connection returns only after the oneway call was processed
+            let mut g = serde_json::to_vec(&json!({"method": "org.varlink.service.GetInfo"})).unwrap(); g.push(0);
+            let _ = w.write_all(&g);
+            let mut buf = Vec::new();
+            let _ = r.read_until(0, &mut buf);
+            buf.pop();
+            match serde_json::from_slice::<Value>(&buf) { Ok(v) if v["parameters"]["vendor"].is_string() => out.push(json!({"parameters": {}})), Ok(v) => out.push(v), Err(_) => {} }
+            return out;
+        }
+        loop {
+            let mut buf = Vec::new();
+            match r.read_until(0, &mut buf) { Ok(n) if n > 0 => {}, _ => break }
+            buf.pop();
+            let v: Value = match serde_json::from_slice(&buf) { Ok(v) => v, Err(_) => break };
+            let cont = v["continues"] == json!(true);
+            out.push(v);
+            if !cont { break; }
+        }
+        out
+    };
+    let with_id = |args: &Value, id: &str| -> Value { let mut a = args.clone(); if !a.is_object() { a = json!({}); } a["client_id"] = json!(id); a };
+    let is_cid_err = |rs: &Vec<Value>| rs.len() == 1 && rs[0]["error"] == json!("org.varlink.certification.ClientIdError");
+    let is_err = |rs: &Vec<Value>| rs.is_empty() || rs.iter().any(|r| !r["error"].is_null());
+    // reference walk: args[k] = parameters (without client_id) of step k
+    let mut args: Vec<Value> = Vec::new();
+    let mut canonical_ok = true;
+    let start = call("Start", json!({}), false);
+    let rid = start.get(0).and_then(|r| r["parameters"]["client_id"].as_str()).unwrap_or("").to_string();
+    let mut prev: Value = json!({});
+    let mut trace: Vec<Value> = vec![json!({"Start": start})];
+    for (k, name) in names.iter().enumerate() {
+        explored += 1;
+        let a = if k == 10 { prev.clone() } else { prev.clone() };
+        args.push(a.clone());
+        let more = k == 9;
+        let rs = if k == 10 { call(&format!("{}!oneway", name), with_id(&a, &rid), false) } else { call(name, with_id(&a, &rid), more) };
+        trace.push(json!({name.as_str(): rs.clone()}));
+        if is_err(&rs) { canonical_ok = false; break; }
+        if k == 9 { prev = json!({"last_more_replies": rs.iter().map(|r| r["parameters"]["string"].clone()).collect::<Vec<_>>()}); }
+        else if k == 10 { prev = json!({}); }
+        else { prev = rs[0]["parameters"].clone(); }
+    }
+    if rid.is_empty() || !canonical_ok {
+        found.entry("step").or_insert(json!({"what": "the canonical sequence (each reply fed into the next call) did not succeed", "trace": trace}));
+    }
+    if args.len() == names.len() {
+        // unknown client id
+        for (k, name) in names.iter().enumerate() {
+            explored += 1;
+            let rs = call(name, with_id(&args[k], "0123456789abcdef-unknown"), false);
+            if !is_cid_err(&rs) { found.entry("gate").or_insert(json!({"what": "unknown client id", "step": name, "replies": rs, "expected": "ClientIdError"})); }
+        }
+        // every position E, every other step K
+        for e in 0..names.len() {
+            let st = call("Start", json!({}), false);
+            let id = st.get(0).and_then(|r| r["parameters"]["client_id"].as_str()).unwrap_or("").to_string();
+            let mut ok = !id.is_empty();
+            for k in 0..e { if !ok { break; } let rs = if k == 10 { call(&format!("{}!oneway", names[k]), with_id(&args[k], &id), false) } else { call(&names[k], with_id(&args[k], &id), k == 9) }; if is_err(&rs) { ok = false; } }
+            if !ok { found.entry("step").or_insert(json!({"what": "a fresh client could not be walked to position", "position": names[e]})); continue; }
+            for k in 0..names.len() {
+                if k == e { continue; }
+                explored += 1;
+                let rs = call(&names[k], with_id(&args[k], &id), false);
+                if !is_cid_err(&rs) {
+                    found.entry("gate").or_insert(json!({"what": "step called out of order", "client_is_at": names[e], "called": names[k], "replies": rs, "expected": "ClientIdError"}));
+                }
+            }
+            explored += 1;
+            let rs = if e == 10 { call(&format!("{}!oneway", names[e]), with_id(&args[e], &id), false) } else { call(&names[e], with_id(&args[e], &id), e == 9) };
+            if is_err(&rs) {
+                found.entry("step").or_insert(json!({"what": "after rejected out-of-order calls the step the client is at no longer succeeds", "position": names[e], "replies": rs}));
+            }
+        }
+    }
+    let _ = child.kill(); let _ = child.wait();
+    let _ = std::fs::remove_dir_all(&dir);
+    for ob in obs {
+        let class = match *ob { "C19.gate" => "gate", "C19.step" | "C19.own-id" => "step", _ => "none" };
+        // any failing history is a counterexample to the property; the obligation's own class is preferred
+        let f = found.get(class).or_else(|| found.get("gate")).or_else(|| found.get("step"));
+        emit(ob, f.is_some(), explored, f.cloned().unwrap_or(Value::Null));
+    }
+}
+
 fn main() {
     let pat = std::env::args().nth(1).unwrap_or_else(|| "*".to_string());
     let m = |ob: &str| -> bool {
@@ -1031,6 +1148,8 @@ fn main() {
     if m("C03.info") { search_info_dups("C03.info"); }
     let cli: Vec<&str> = ["C20.split", "C20.status", "C20.print", "C20.no-panic"].iter().cloned().filter(|o| m(o)).collect();
     if !cli.is_empty() { search_cli(&cli); }
+    let cert: Vec<&str> = ["C19.gate", "C19.step", "C19.own-id"].iter().cloned().filter(|o| m(o)).collect();
+    if !cert.is_empty() { search_cert(&cert); }
     let wr: Vec<&str> = ["C17.wire-attrs"].iter().cloned().filter(|o| m(o)).collect();
     if !wr.is_empty() { search_wire_roundtrip(&wr); }
 }
